@@ -34,7 +34,7 @@ def run(rep: Report, tier: str, only=None) -> None:
 			jobs.append(Job('K4.string_concat', H, 'string_concat', {'classes': str_classes, 'n': n_str - 2, 'lq': lq, 'rq': rq}, t, 'S', f'quote kinds (", \', triple ") x symbolic contents <= {n_str - 2} over [" | \' | letters/blank | digits], no escapes', ('quote_in_content',)))
 	jobs.append(Job('K4.escaped_concat', H, 'escaped_concat', {}, t, 'F', 'all pairs of 17 literals with escapes (escaped quote of the own kind at the start / end / alone, escaped backslash before the closing quote, other-kind quotes, \\n / \\t, empty, triple-quoted): the result text is a Python literal denoting the concatenation, or the evaluator refuses', ('value',)))
 	for cast in ['int', 'float', 'str']:
-		jobs.append(Job('K5.cast', H, 'cast_of_int', {'cast': cast, **({'bound': 200} if cast == 'str' else {})}, t, 'S', f'{cast}(<symbolic int>)' + (' |v| < 200 (decimal rendering is realised)' if cast == 'str' else ' unbounded')))
+		jobs.append(Job('K5.cast', H, 'cast_of_int', {'cast': cast, **({'bound': 200} if cast == 'str' else {})}, t, 'S', f'{cast}(<symbolic int>)' + (' |v| < 200 (decimal rendering is realised)' if cast == 'str' else ' unbounded'), ('value',)))
 		jobs.append(Job('K5.cast', H, 'cast_of_string', {'cast': cast, 'classes': ['"', "'", '0123456789', '.', 'abc', ' -'], 'n': n_str}, t, 'S', f'{cast}(<literal text <= {n_str}>) plain quoted literal without escapes'))
 	if only:
 		jobs = [j for j in jobs if j.obligation in only or j.obligation.split('.')[0] in only]
@@ -59,9 +59,10 @@ def run(rep: Report, tier: str, only=None) -> None:
 	rep.run_jobs(jobs)
 	if k2_thread:
 		k2_thread.join()
-	if not only or 'K6' in only:
+	if not only or 'K6' in only or 'K7' in only:
 		rep.run_closed('K6.enum_composition', 'harness.c17_enum', 'enum_values_closed', {}, '25 filled four-enum modules (member references, cross-enum references, two nested enums sharing a short name) through the real pipeline: LiteralEvaluator.exec of 11 `.value` references each vs CPython (closed)')
 		rep.run_closed('K6.enum_two_modules', 'harness.c17_enum', 'enum_two_modules_closed', {}, 'one run over two modules declaring a same-named enum with different member values (int shift, float division, string concatenation), both transpile orders: the literal emitted for `.value` is the value CPython computes for that module (closed)')
+		rep.run_closed('K7.cast_forms', 'harness.c17_enum', 'cast_forms_closed', {}, '39 cast expressions (extra / keyword arguments, bases, triple-quoted / prefixed / escaped string literals, signs, blanks, underscores, exponents, nested casts) as enum member values through the real pipeline: the folded `.value` literal equals the CPython value with equal type, or the pipeline raises an application error; where CPython raises, the pipeline must refuse (closed)')
 	rep.check_recorded()
 
 
